@@ -447,27 +447,37 @@ def top_rule(ctx, r):
     # Override::matched
     o = facts.fn("ignore::overrides::Override::matched")
     ebo = ExprBuilder(o)
-    inv = o.calls_to(MATCH + "::invert")
-    if inv and mentions_call(ebo.operand(inv[0].args[0]), GI_MATCHED):
-        r.ok("override|invert", "override = inverted gitignore match", fn=o)
-    else:
+    # value table over (gitignore verdict, num_whitelists, is_dir): the override's answer is the gitignore verdict inverted;
+    # nothing matched becomes Ignore exactly when whitelist globs exist and the entry is not a directory
+    from ..flow import ret_set
+    wrong_inv, wrong_unm = [], []
+    gi_calls = o.calls_to(GI_MATCHED)
+    isdir_arg = [i for i, l_ in enumerate(o.locals) if l_.get("name") == "is_dir" and 0 < i <= o.argc]
+    if not gi_calls or not isdir_arg:
         r.bad("override|invert", "Override::matched does not invert the gitignore verdict", fn=o)
-    unm = o.calls_to("ignore::overrides::Glob::unmatched")
-    sw1 = cond_switches(o, lambda e: is_call(e, MATCH + "::is_none"), ebo)
-    sw2 = cond_switches(o, lambda e: e.k == "bin" and e[1] == "Gt" and mentions_call(e, "ignore::overrides::Override::num_whitelists"), ebo)
-    sw3 = cond_switches(o, lambda e: e.k == "arg" and e[2] == "is_dir", ebo)
-    if not unm:
-        r.bad("override|unmatched", "anchor-missing: no Glob::unmatched() in Override::matched", fn=o)
+        r.bad("override|unmatched", "anchor-missing: Override::matched no longer consults its gitignore matcher", fn=o)
     else:
-        bad = []
-        if not sw1 or guarded(o, [unm[0].bb], sw1, True):
-            bad.append("mat.is_none()")
-        if not sw2 or guarded(o, [unm[0].bb], sw2, True):
-            bad.append("num_whitelists() > 0")
-        if not sw3 or guarded(o, [unm[0].bb], sw3, False):
-            bad.append("!is_dir")
-        if bad:
-            r.bad("override|unmatched", "'unmatched ⇒ ignore' is not guarded by %s" % ", ".join(bad), fn=o, loc=unm[0].loc)
+        for row, sx in table(facts, o, calls={GI_MATCHED.split("::", 1)[1]: verdicts, "Override::num_whitelists": [I(0), I(2)],
+                                              "Override::is_empty": [I(0)]},
+                             args={isdir_arg[0]: [I(0), I(1)]}, callees=lambda p_: p_.startswith(MATCH + "::")):
+            gv = row[("call", GI_MATCHED.split("::", 1)[1])][1]
+            nw, isd = row[("call", "Override::num_whitelists")][1], row[("arg", isdir_arg[0])][1]
+            got = {("?" if v is None else v[1]) for v in ret_set(sx)}
+            if gv == "None":
+                want = "Ignore" if (nw > 0 and not isd) else "None"
+                if got != {want}:
+                    wrong_unm.append("nothing matched, whitelists=%d is_dir=%d ⇒ %s" % (nw, isd, sorted(got)))
+            else:
+                want = "Whitelist" if gv == "Ignore" else "Ignore"
+                if got != {want}:
+                    wrong_inv.append("gitignore says %s ⇒ %s" % (gv, sorted(got)))
+        if wrong_inv:
+            r.bad("override|invert", "Override::matched does not invert the gitignore verdict (%s)" % "; ".join(wrong_inv[:2]), fn=o)
+        else:
+            r.ok("override|invert", "override = inverted gitignore match", fn=o)
+        if wrong_unm:
+            r.bad("override|unmatched", "'unmatched ⇒ ignore' is not decided by is_none ∧ whitelists>0 ∧ !is_dir (%s)" % "; ".join(wrong_unm[:2]),
+                  fn=o)
         else:
             r.ok("override|unmatched", "unmatched ⇒ Ignore only under is_none ∧ whitelists>0 ∧ !is_dir", fn=o)
 
@@ -780,13 +790,17 @@ def explicit_rule(ctx, r):
         else:
             r.ok("build", "is_explicit() ⇒ Some(hay) before the file-type filter", fn=hb)
     f = facts.fn("rg::haystack::Haystack::is_explicit")
-    tail = H.tail_expr(f.hir)
-    atoms = ["self.is_stdin()", "(self.dent.depth() Eq 0)", "self.is_dir()"]
-    ok, detail = H.equivalent(tail, atoms, lambda v: v[atoms[0]] or (v[atoms[1]] and not v[atoms[2]]))
-    if ok:
-        r.ok("is_explicit", "≡ is_stdin ∨ (depth == 0 ∧ ¬is_dir) (%s)" % detail, fn=f)
+    from ..flow import table as _table, ret_set as _ret_set
+    wrong = []
+    for row, sx in _table(facts, f, calls={"Haystack::is_stdin": [I(0), I(1)], "DirEntry::depth": [I(0), I(2)], "Haystack::is_dir": [I(0), I(1)]}):
+        sd, dp, dr = row[("call", "Haystack::is_stdin")][1], row[("call", "DirEntry::depth")][1], row[("call", "Haystack::is_dir")][1]
+        want = I(int(bool(sd or (dp == 0 and not dr))))
+        if _ret_set(sx) != {want}:
+            wrong.append("is_stdin=%d depth=%d is_dir=%d ⇒ %s" % (sd, dp, dr, sorted(map(str, _ret_set(sx)))))
+    if not wrong:
+        r.ok("is_explicit", "≡ is_stdin ∨ (depth == 0 ∧ ¬is_dir) (8 rows)", fn=f)
     else:
-        r.bad("is_explicit", "Haystack::is_explicit: %s" % detail, fn=f)
+        r.bad("is_explicit", "Haystack::is_explicit: %s" % "; ".join(wrong[:3]), fn=f)
 
 
 
